@@ -391,6 +391,9 @@ theorem apply_mono {s s' : St} {o : Op} (h : Roles s) (e : apply s o = .ok s') :
   | fraud au ra hh rev p rw => exact fraud_mono h.core.uniq e
   | obsolete au vs => exact markObsolete_mono e
   | punish au a rw => exact (punish_frame h.core.uniq (punishProposal_ok e).2).mono
+  | transferOwner sg ra' no =>
+    obtain ⟨r, hg, _, _, _, rfl⟩ := transferOwner_ok e
+    exact Mono.of_seqs rfl
   | begin_ dt => simp only [apply] at e; injection e with e; subst e; exact Mono.of_seqs (beginBlock_seqs s dt)
   | end_ f => simp only [apply] at e; injection e with e; subst e; exact (endBlock_frame h.core.uniq).mono
 
